@@ -1,5 +1,7 @@
 import TinyFlux.Generated.Footprint
 import TinyFlux.Model.Footprint
+import TinyFlux.Generated.CallGraph
+import TinyFlux.Model.CallGraph
 
 /-! # C05: the state the code keeps is the state the Model has (point)
 
@@ -17,5 +19,16 @@ theorem state_is_the_models_state :
 theorem no_hidden_state :
     Generated.moduleState.lookup "point" = Model.Footprint.modules.lookup "point" ∧
     Generated.classState.map (·.1) = Model.Footprint.classNames := by decide
+
+/-- every function of these classes / modules calls, catches and raises exactly what it did when the Model was
+    written against it and validated (`Model/CallGraph.lean`); and there is no table the Model does not know -/
+theorem code_uses_the_modelled_primitives :
+    Generated.calls_point_Point = Model.CallGraph.calls_point_Point ∧
+    Generated.calls_point_toplevel = Model.CallGraph.calls_point_toplevel ∧
+    Generated.calls_storages_Storage = Model.CallGraph.calls_storages_Storage ∧
+    Generated.calls_storages_CSVStorage = Model.CallGraph.calls_storages_CSVStorage ∧
+    Generated.calls_storages_MemoryStorage = Model.CallGraph.calls_storages_MemoryStorage ∧
+    Generated.calls_storages_toplevel = Model.CallGraph.calls_storages_toplevel ∧
+    Generated.callGraphTables = Model.CallGraph.callGraphTables := ⟨rfl, rfl, rfl, rfl, rfl, rfl, rfl⟩
 
 end TinyFlux.Props.C05
